@@ -295,11 +295,11 @@ def tables_reached(j):
     return r
 
 
-def part_spec(chk, C, T, runner, jobs):
+def part_spec(chk, C, T, runner, jobs, aimed=None):
     rng = chk.rng
     mrunner = os.path.join(common.EXTRACT, "model_runner")
     files = frozenset(C.POOL)
-    cand = aimed_jobs(C, T, rng) + list(jobs)
+    cand = (aimed if aimed is not None else aimed_jobs(C, T, rng)) + list(jobs)
     cases, seen = [], set()
     outside = 0
     for j in cand:
